@@ -5,7 +5,7 @@
 (* amount class), so that every emitted case is replayed >= 5 times.        *)
 EXTENDS Keys, Json, IOUtils
 
-CONSTANTS PerGroup, CraftDepths, AlgStride, ShapeStride, CbStride
+CONSTANTS PerGroup, CraftDepths, AlgStride, ShapeStride, CbStride, PairStride, WalPicks
 
 SelSeed == IF "KEYS_SEL" \in DOMAIN IOEnv THEN atoi(IOEnv.KEYS_SEL) % 1000 ELSE 1
 
@@ -13,7 +13,7 @@ CompSeq == <<"c0", "c1", "nmax", "h0", "hmax", "nr", "hr">>      \* fixed order;
 NormSeq == <<"c0", "c1", "nmax", "nr">>
 AmtSeq  == <<"a0", "a1", "a60", "a63", "amax", "arand">>
 SeedSeq == <<"s1", "s2", "s3">>
-FmtSeq  == <<"new", "legacy", "wallet1", "sw2">>
+FmtSeq  == <<"new", "legacy", "wallet1", "sw2", "b0", "dp5", "dp255", "dpm1">>
 Idx(seq, x) == CHOOSE i \in DOMAIN seq : seq[i] = x
 NC == Cardinality(Comps)
 NN == Cardinality(Comps \ HardComps)
@@ -32,7 +32,7 @@ AmtList  == SelectSeq(AmtSeq, LAMBDA x : x \in Amts)
 SeedList == SelectSeq(SeedSeq, LAMBDA x : x \in Seeds)
 
 GCode(a) == ((Len(a.path) * 2 + ModeByte(a.mode)) * 2 + (IF a.fam = "new" THEN 0 ELSE 1)) * 8 + Idx(AmtList, a.amt)
-FCode(a) == GCode(a) * 4 + Idx(FmtSeq, a.fmt)
+FCode(a) == GCode(a) * 8 + Idx(FmtSeq, a.fmt)
 Target(g, j, size) == (SelSeed * 7919 + g * 104729 + j * 15485863) % size
 
 AllNormal(p) == \A i \in DOMAIN p : p[i] \notin HardComps
@@ -41,8 +41,17 @@ HonestSel(a) ==
   \/ \E j \in 1..PerGroup : MemberIdx(a, CompList, NC) = Target(GCode(a), j, NS * Pow(NC, Len(a.path)))
   \/ (a.fam = "new" /\ a.mode = "None" /\ AllNormal(a.path)
         /\ MemberIdx(a, NormList, NN) = Target(GCode(a), 13, NS * Pow(NN, Len(a.path))))
+\* the malformed-header formats are crafted with the new generation's nonce (that is where they are
+\* decided by check_output) at the depths where they matter: the clamp of the depth byte at 4 (and
+\* 3, where the clamped depth is wrong), a depth byte one too small at 1 and 4, byte 0 at 0 and 2
+FmtDepths(fmt) ==
+  CASE fmt \in {"dp5", "dp255"} -> {3, 4}
+    [] fmt = "dpm1" -> {1, 4}
+    [] fmt = "b0" -> {0, 2}
+    [] OTHER -> CraftDepths
 CraftSel(a) ==
-  /\ Len(a.path) \in CraftDepths
+  /\ Len(a.path) \in FmtDepths(a.fmt)
+  /\ a.fmt \in {"b0", "dp5", "dp255", "dpm1"} => a.fam = "new"
   /\ Idx(AmtList, a.amt) = ((FCode(a) + SelSeed) % Len(AmtList)) + 1
   /\ MemberIdx(a, CompList, NC) = Target(FCode(a), 1, NS * Pow(NC, Len(a.path)))
 SelectedOut(a) == IF Honest(a) THEN HonestSel(a) ELSE CraftSel(a)
@@ -56,12 +65,46 @@ CaseViewKeys(a) ==
     \cup [kind : {"view"}, seed : Seeds \ {a.seed}, prefix : {<<>>}]
 
 RowOf(rw, o) == [kind |-> rw.kind, seed |-> rw.seed, prefix |-> rw.prefix, exp |-> Rewind(rw, o.commit, o.proof).t]
+\* extra-data rows of a case: <<created with, verified / rewound with>>, rewound by the creating wallet
+ExtraPairs == {<<"e1", "e1">>, <<"e1", "none">>, <<"none", "e1">>, <<"e1", "e2">>}
+ExtraRow(o, x, y) ==
+  LET ox == MkOutX(o.args, x)
+      own == [kind |-> o.args.fam, seed |-> o.args.seed, prefix |-> <<>>] IN
+  [c |-> x, r |-> y, verifies |-> VerifiesX(ox.commit, ox.proof, y), exp |-> RewindX(own, ox.commit, y, ox.proof).t]
+SibRow(o, b) ==
+  [seed |-> b.seed, path |-> b.path, amt |-> b.amt, mode |-> b.mode,
+   sigok |-> SigVerifies(SigOf(b, "m1"), "m1", o.commit)]
 OutCase(o) ==
   [kind |-> "out", args |-> o.args,
    rew |-> {RowOf(rw, o) : rw \in KeychainRewinders},
    view |-> {RowOf(vk, o) : vk \in CaseViewKeys(o.args)},
-   sib |-> {b \in Siblings(o.args) : b # o.args}]
+   sib |-> {SibRow(o, b) : b \in {b \in Siblings(o.args) : b # o.args}},
+   \* identifier paddings under which every expectation of this record is unchanged
+   pads |-> {ZeroComp} \cup (IF PadEquivalent(o, JunkComp) THEN {JunkComp} ELSE {}),
+   extra |-> IF Honest(o.args) THEN {ExtraRow(o, xy[1], xy[2]) : xy \in ExtraPairs} ELSE {}]
 EmitOut == \A o \in outs : SelectedOut(o.args) => PrintT(<<"KCASE", ToJson(OutCase(o))>>)
+\* (the formats configuration also contains honest outputs, for the padding / extra-data invariants; they
+\* are emitted by the rewind configuration)
+EmitCraft == \A o \in outs : (~Honest(o.args) /\ SelectedOut(o.args)) => PrintT(<<"KCASE", ToJson(OutCase(o))>>)
+
+\* ---- pairs of outputs differing in at least two coordinates (the one-coordinate neighbours are the
+\* siblings of every case): commitments differ unless the arguments are equal, a proof moved to the
+\* other commitment neither verifies nor rewinds, each wallet recovers exactly its own output
+NDiff(a, b) == (IF a.seed # b.seed THEN 1 ELSE 0) + (IF a.path # b.path THEN 1 ELSE 0)
+               + (IF a.amt # b.amt THEN 1 ELSE 0) + (IF a.mode # b.mode THEN 1 ELSE 0)
+ACode(a) == FCode(a) * 64 + MemberIdx(a, CompList, NC)
+PairCase(o1, o2) ==
+  [kind |-> "pair", a |-> o1.args, b |-> o2.args,
+   same_commit |-> o1.commit = o2.commit,
+   swapped_verifies |-> Verifies(o2.commit, o1.proof),
+   \* o1's proof presented with o2's commitment / o1's proof with its own commitment, to every keychain rewinder
+   swapped |-> {[kind |-> rw.kind, seed |-> rw.seed, exp |-> Rewind(rw, o2.commit, o1.proof).t] : rw \in KeychainRewinders},
+   own |-> {[kind |-> rw.kind, seed |-> rw.seed, exp |-> Rewind(rw, o1.commit, o1.proof).t] : rw \in KeychainRewinders}]
+SelectedPair(o1, o2) ==
+  /\ Honest(o1.args) /\ Honest(o2.args) /\ NDiff(o1.args, o2.args) >= 2
+  /\ (ACode(o1.args) * 31 + ACode(o2.args) * 17 + SelSeed * 7) % PairStride = 0
+EmitPair ==
+  \A o1, o2 \in outs : (o1 # o2 /\ SelectedPair(o1, o2)) => PrintT(<<"KCASE", ToJson(PairCase(o1, o2))>>)
 
 \* ---- algebra cases
 TermCode(t) == (IF t.s = 1 THEN 0 ELSE 1) * 5 + (CASE t.n = "d1" -> 0 [] t.n = "d2" -> 1 [] t.n = "r1" -> 2 [] t.n = "r2" -> 3 [] OTHER -> 4)
@@ -71,7 +114,8 @@ SelectedExpr(e) == Len(e) >= 1 /\ (Len(e) <= 2 \/ (ECode(e) * 7 + SelSeed * 31) 
 AlgCase(e) ==
   [kind |-> "alg", terms |-> e, zero |-> IsZero(Val(e)),
    cuts |-> [k \in 0..Len(e) |-> [k |-> k, pzero |-> IsZero(Val(SubSeq(e, 1, k))), szero |-> IsZero(Val(SubSeq(e, k + 1, Len(e))))]],
-   addx |-> {[n |-> x, pluszero |-> IsZero(VAdd(Val(e), Unit(x))), minuszero |-> IsZero(VAdd(Val(e), VNeg(Unit(x))))] : x \in KeyNames}]
+   addx |-> {[n |-> x, pluszero |-> IsZero(VAdd(Val(e), Unit(x))), minuszero |-> IsZero(VAdd(Val(e), VNeg(Unit(x))))] : x \in KeyNames}
+              \cup {[n |-> "z", pluszero |-> IsZero(Val(e)), minuszero |-> IsZero(Val(e))]}]
 EmitAlg == SelectedExpr(expr) => PrintT(<<"KCASE", ToJson(AlgCase(expr))>>)
 
 \* ---- builder cases
@@ -79,14 +123,60 @@ SeqCode(s) == Len(s) * 27 + (IF Len(s) >= 1 THEN s[1] ELSE 0) + 3 * (IF Len(s) >
 StrCode(x) == CASE x \in {"f1", "one", "Plain", "transaction"} -> 0
                 [] x \in {"ftyp", "grin", "HeightLocked", "with_kernel"} -> 1
                 [] x \in {"fmax", "max", "partial"} -> 2
+                [] x = "exchange" -> 4
                 [] OTHER -> 3
-ShapeCode(sh) == ((((SeqCode(sh.ins) * 108 + SeqCode(sh.outs)) * 4 + StrCode(sh.fee)) * 4 + StrCode(sh.scale)) * 2 + StrCode(sh.kern)) * 4 + StrCode(sh.via)
+ShapeCode(sh) == ((((SeqCode(sh.ins) * 108 + SeqCode(sh.outs)) * 4 + StrCode(sh.fee)) * 4 + StrCode(sh.scale)) * 2 + StrCode(sh.kern)) * 5 + StrCode(sh.via)
 CbCode(sh) == ((CASE sh.cbfee = "cf0" -> 0 [] sh.cbfee = "cf1" -> 1 [] sh.cbfee = "cftyp" -> 2 [] sh.cbfee = "cfmax40" -> 3 [] OTHER -> 4) * 2
               + (IF sh.fam = "new" THEN 0 ELSE 1)) * 10 + sh.depth * 2 + (IF sh.block THEN 1 ELSE 0)
 SelectedShape(sh) == IF IsCb(sh) THEN (CbCode(sh) * 7 + SelSeed * 31) % CbStride = 0
                      ELSE (ShapeCode(sh) * 7 + SelSeed * 31) % ShapeStride = 0
 ShapeCase(sh) ==
   IF IsCb(sh) THEN [kind |-> "cb", shape |-> sh, recoverable |-> CbRecoverable(sh)]
-  ELSE [kind |-> "tx", shape |-> sh]
+  ELSE [kind |-> "tx", shape |-> sh,
+        \* exchange: the elements party B contributes (1-based positions)
+        partyB |-> [ins |-> {n[2] : n \in {m \in PartyB(sh) : m[1] = "in"}}, outs |-> {n[2] : n \in {m \in PartyB(sh) : m[1] = "out"}}]]
 EmitShape == (shape # <<>> /\ SelectedShape(shape)) => PrintT(<<"KCASE", ToJson(ShapeCase(shape))>>)
+
+\* ---- wallet-constructor pairs: a covering selection of related constructors
+IsPrefixB(x, y) == Len(x) < Len(y) /\ \A i \in 1..Len(x) : x[i] = y[i]
+PairClass(c1, c2) ==
+  CASE c1.k = "seed" /\ c2.k = "seed" ->
+         (IF c1.b = c2.b THEN "seed_same"
+          ELSE IF Len(c1.b) = 4 /\ Len(c2.b) = 4 /\ c1.b[1] = c2.b[1] /\ c1.b[2] = c2.b[2] THEN "seed_shared32"
+          ELSE IF Len(c1.b) = 2 /\ Len(c2.b) = 2 /\ c1.b[1] = c2.b[1] THEN "seed_shared16"
+          ELSE IF IsPrefixB(c1.b, c2.b) THEN "seed_prefix"
+          ELSE "other")
+    [] c1.k = "mnemonic" /\ c2.k = "mnemonic_seed" ->
+         (IF c1.w = c2.w /\ c1.p = c2.p THEN "mn_is_seed_of_mn"
+          ELSE IF c1.w = c2.w THEN "mn_seed_other_pass" ELSE "other")
+    [] c1.k = "mnemonic" /\ c2.k = "mnemonic" ->
+         (IF c1 = c2 THEN "mn_same"
+          ELSE IF c1.w = c2.w THEN "mn_other_pass"
+          ELSE IF c1.p = c2.p THEN "mn_other_words" ELSE "other")
+    [] c1.k = "masked" /\ c2.k = "seed" -> (IF c1.b = c2.b THEN "masked_vs_base" ELSE "other")
+    [] c1.k = "masked" /\ c2.k = "masked" ->
+         (IF c1.m = c2.m THEN "other"
+          ELSE IF Len(c1.m) = 2 /\ Len(c2.m) = 2 /\ c1.m[1] = c2.m[2] /\ c1.m[2] = c2.m[1] THEN "masked_commute"
+          ELSE "masked_vs_masked")
+    [] OTHER -> "other"
+CtorCode(c) ==
+  CASE c.k = "seed" -> Len(c.b) * 16 + Code(c.b, <<"p", "q">>, 2)
+    [] c.k = "masked" -> 100 + Len(c.m) * 4 + Code(c.m, <<"m1", "m2">>, 2)
+    [] OTHER -> 200 + (IF c.k = "mnemonic" THEN 0 ELSE 6) + (IF c.w = "w1" THEN 0 ELSE 3)
+                + (CASE c.p = "" -> 0 [] c.p = "x" -> 1 [] OTHER -> 2)
+\* every class is always represented: the classes in WalAlways by all their pairs, the others by
+\* WalPicks pairs chosen pseudo-randomly in the run seed
+WalClasses == {"seed_same", "seed_shared32", "seed_shared16", "seed_prefix", "mn_is_seed_of_mn", "mn_seed_other_pass",
+               "mn_same", "mn_other_pass", "mn_other_words", "masked_vs_base", "masked_commute", "masked_vs_masked"}
+WalAlways == {"masked_vs_base", "masked_commute", "mn_is_seed_of_mn"}
+ClassPairs(cl) == {pr \in Ctors \X Ctors : PairClass(pr[1], pr[2]) = cl}
+WalHash(pr, j) == ((CtorCode(pr[1]) * 13 + CtorCode(pr[2]) * 7 + j * 101) * (SelSeed + 17)) % 1009
+Pick(S, j) == CHOOSE p \in S : \A q \in S : WalHash(p, j) <= WalHash(q, j)
+WalSelection ==
+  UNION {IF cl \in WalAlways THEN ClassPairs(cl) ELSE {Pick(ClassPairs(cl), j) : j \in 1..WalPicks} : cl \in WalClasses}
+SelectedWal(c1, c2) == <<c1, c2>> \in WalSelection
+WalCase(c1, c2) == [kind |-> "wal", c1 |-> c1, c2 |-> c2, class |-> PairClass(c1, c2), same |-> SameWallet(c1, c2)]
+EmitWal ==
+  (Part = "wallet" /\ world # <<>> /\ SelectedWal(world.c1, world.c2)) =>
+    PrintT(<<"KCASE", ToJson(WalCase(world.c1, world.c2))>>)
 =======================================================================
